@@ -408,44 +408,46 @@ fn str_duration(ost: Option<String>) -> Result<Option<std::time::Duration>, Erro
         })
     }
     ost.map(|st| {
-        let mut num = None;
-        let mut ret = Default::default();
+        let too_large = || Error::InvalidConfig(format!("Duration {} is too large", st));
+        let mut num: Option<u64> = None;
+        let mut ret = std::time::Duration::default();
         for c in st.chars() {
-            match c {
+            let unit: u64 = match c {
                 '0'..='9' => {
-                    if let Some(n) = num {
-                        num = Some(n * 10 + c as u64 - '0' as u64);
-                    } else {
-                        num = Some(c as u64 - '0' as u64);
-                    }
+                    let digit = u64::from(c.to_digit(10).unwrap_or(0));
+                    num = Some(
+                        num.unwrap_or(0)
+                            .checked_mul(10)
+                            .and_then(|n| n.checked_add(digit))
+                            .ok_or_else(too_large)?,
+                    );
+                    continue;
                 }
-                's' => {
-                    ret += std::time::Duration::from_secs(take_number(&mut num, c)?);
-                }
-                'm' => {
-                    ret += std::time::Duration::from_secs(take_number(&mut num, c)? * 60);
-                }
-                'h' => {
-                    ret += std::time::Duration::from_secs(take_number(&mut num, c)? * 3600);
-                }
-                'd' => {
-                    ret += std::time::Duration::from_secs(take_number(&mut num, c)? * 86400);
-                }
-                'w' => {
-                    ret += std::time::Duration::from_secs(take_number(&mut num, c)? * 7 * 86400);
-                }
-                x if x.is_whitespace() => (),
-                '_' => (),
+                's' => 1,
+                'm' => 60,
+                'h' => 3600,
+                'd' => 86400,
+                'w' => 7 * 86400,
+                x if x.is_whitespace() => continue,
+                '_' => continue,
                 _ => {
                     return Err(Error::InvalidConfig(format!(
                         "Unexpected {} in duration",
                         c
                     )));
                 }
-            }
+            };
+            let secs = take_number(&mut num, c)?
+                .checked_mul(unit)
+                .ok_or_else(too_large)?;
+            ret = ret
+                .checked_add(std::time::Duration::from_secs(secs))
+                .ok_or_else(too_large)?;
         }
         if let Some(n) = num {
-            ret += std::time::Duration::from_secs(n);
+            ret = ret
+                .checked_add(std::time::Duration::from_secs(n))
+                .ok_or_else(too_large)?;
         }
         Ok(ret)
     })
